@@ -850,7 +850,11 @@ func (e *Env) callExpr(n *ast.CallExpr) Val {
 			r = app("i_val", ref.T)
 		}
 		if name == "gc" {
-			return e.ival(sel(u.comp(e.heap, "GC_"+mangle(nm), "(Array Int Int)"), r))
+			t := sel(u.comp(e.heap, "GC_"+mangle(nm), "(Array Int Int)"), r)
+			if !strings.Contains(t, "!q") && !strings.Contains(t, "!j") && !strings.Contains(t, "!s") && !strings.Contains(t, "!d") {
+				u.assume(app("<=", "0", t)) // ghost counters count up from zero
+			}
+			return e.ival(t)
 		}
 		return Val{T: sel(u.comp(e.heap, "GB_"+mangle(nm), "(Array Int (Array Int Int))"), r), Ty: &seqType{elem: types.Typ[types.Uint8]}, S: "(Array Int Int)"}
 	case "typeis":
@@ -1181,10 +1185,10 @@ func singleOffset(body, k string) (string, bool) {
 		if strings.HasPrefix(body[j:], needle) && !strings.Contains(first, k) {
 			// is the enclosing term a select?  look backwards for "(select "
 			if enclosingIsSelect(body, i) {
-				if found && first != off {
-					return "", false
+				if !found {
+					// several array reads with different offsets: re-index by the first one
+					off, found = first, true
 				}
-				off, found = first, true
 			}
 		}
 	}
